@@ -43,6 +43,10 @@ CHECKS = {
    "rapid-generated struct/array type shapes x a catalogue of about 60 copy and alias contexts x a mutation of a rapid-chosen leaf on one side, followed by deep dumps of both sides, compared with the native run",
    "trusts the native Go toolchain as reference; contexts are a fixed catalogue instantiated over generated shapes, so a context outside the catalogue is not explored",
    "property-based differential testing of generated probe programs (rapid) with native Go as oracle"),
+ "C08": ("exploration",
+   "rapid-instantiated probes of every panicking operation of the property with operand values around the boundaries (recovered value classified as runtime.Error / keyword class, with pre/post and operand-order logging) plus rapid-generated call trees with defers, recover at different depths, re-panics, panicking deferred functions, Goexit, goroutines and wrapper frames, each run as its own process so that the way the program ends is observed; compared with the native run",
+   "trusts the native Go toolchain as reference; run-time error messages are compared by class keyword, not verbatim; evaluation-order probes only where the spec fixes the order",
+   "property-based differential testing of generated probe programs and call trees (rapid) with native Go as oracle"),
 }
 PENDING_REASON = "check not built yet in this session (work in progress; see DESIGN.md §8 for the order)"
 props=[json.loads(l)['id'] for l in open('/verif/properties.jsonl')]
